@@ -18,6 +18,7 @@ import Driver.OnceChk
 import Driver.ApplyChk
 import Driver.SourceChk
 import Driver.SrcChk
+import Driver.BlockChk
 /-! `dvdriver`: line-protocol driver over the Lean models — the same definitions the theorems are about.
     One operation per line in, one canonical result per line out; the C harnesses answer the same lines with
     the real library and the check diffs the two streams. -/
@@ -243,4 +244,5 @@ def main (args : List String) : IO UInt32 := do
   | "apply" :: paths => ApplyChk.main paths
   | "source" :: paths => SourceChk.main paths
   | "srcview" :: paths => SrcChk.main paths
+  | "block" :: paths => BlockChk.main paths
   | _ => loop (← IO.getStdin) (← IO.getStdout); return 0
